@@ -113,9 +113,10 @@ PROPS["C06"] = {
     "quick_secs": 16,
     "thorough_secs": 360,
     "memcheck_leg": 40,
+    "asan_leg": 40,
     "totality": True,
     "min_evaluations": 20000,
-    "technique": "differential trace monitor: generated machine-code programs lifted with translate_function_extended and executed by the reference IL interpreter vs the same bytes executed one machine instruction at a time (each instruction lifted on its own at its pc); the two sequences of (instruction address, IL operation) and the way they end must be identical; structural monitor on every recovered function",
+    "technique": "differential trace monitor: generated machine-code programs lifted with translate_function_extended and executed by the reference IL interpreter vs the same bytes executed one machine instruction at a time (each instruction lifted on its own at its pc); the two sequences of (instruction address, IL operation) and the way they end must be identical; structural monitor on every recovered function; thorough repeats the workload under valgrind memcheck and under AddressSanitizer (Rust + C decoders instrumented)",
     "rule": "programs of 2-120 instructions for all 7 translators (x86, amd64, mips, mipsel, ppc, aarch64, aarch64eb) built from the instructions each lifter accepts: "
             "ALU/move/memory filler incl. 10-byte x86 instructions, forward and backward conditional and unconditional direct branches (x86 rel8/rel32, loop), branches to the "
             "next instruction, MIPS delay slots (also as branch targets), returns, indirect jumps through a reserved register with manual edges (true target plus decoys, "
@@ -311,13 +312,18 @@ PROPS["C02"] = {
     "quick_secs": 14,
     "thorough_secs": 300,
     "min_evaluations": 50000,
-    "technique": "differential monitor: falcon-lifted IL run by the reference IL interpreter vs independent MIPS32 and PPC32 interpreters (mipsref/ppcref, written from the architecture manuals) from the same state; MIPS branches together with their delay slot",
+    "technique": "differential monitor: falcon-lifted IL run by the reference IL interpreter vs independent MIPS32 and PPC32 interpreters (mipsref/ppcref, written from the architecture manuals) from the same state; MIPS branches together with their delay slot, and MIPS multi-instruction blocks (straight-line code + branch + slot, cut at chosen byte lengths) against instruction-by-instruction reference execution",
     "rule": "per-opcode templates for every mnemonic the MIPS and PPC lifters dispatch, all register/immediate fields random ($zero destinations, "
             "aliasing, negative offsets routine), branch + random delay-slot pairs for every MIPS branch/jump (slots aimed at the branch's source and "
             "link registers), plus uniformly random words; big- and little-endian MIPS. Touched memory is discovered by a probe run of the reference "
             "and mapped with random bytes. Compared: 31 GPRs, HI/LO (except after mul), r0-r31, LR, CTR, all CR field bits, carry, all memory, next "
             "PC; a reference trap must correspond to the IL reaching an intrinsic. A difference in a branch+slot case is attributed to the slot "
-            "instruction when that instruction alone also differs. Non-trivial = a compared output changed; distinct = (arch, mnemonic, with-slot).",
+            "instruction when that instruction alone also differs. One MIPS case in six is a multi-instruction block: 0-17 straight-line instructions, "
+            "a branch, its delay slot and 0-2 more instructions handed to translate_block as one byte string of a chosen length (whole, cut between "
+            "branch and slot, cut behind the slot, exactly the 64 bytes function lifting uses with the branch in the last or second-to-last word); the "
+            "words the result covers (by its instruction addresses) are executed by mipsref one instruction at a time, stopping at the first transfer "
+            "of control as the executor does, and all registers, memory and the next pc are compared; a covered branch must have its slot covered. "
+            "Non-trivial = a compared output changed; distinct = (arch, mnemonic, with-slot) and (arch, branch, block shape, covered part).",
     "level_text": "Sampled (word, state) pairs per mnemonic against independently written interpreters; unaligned accesses, UNPREDICTABLE forms, "
                   "reserved BO encodings and accesses/branches that wrap around the 32-bit address space are counted and not judged.",
     "level_note": "trusts harness/src/mipsref.rs (75 hand-computed tests) and ppcref.rs (120 tests), refinterp.rs, refeval.rs; falcon does not model XER[SO]/[OV], so CR SO bits start at 0 and OE forms are not generated",
@@ -334,9 +340,10 @@ PROPS["C05"] = {
     "thorough_secs": 420,
     "release_leg": True,
     "memcheck_leg": 60,
+    "asan_leg": 60,
     "totality": True,
     "min_evaluations": 500000,
-    "technique": "totality + well-formedness monitor: hostile byte strings lifted by all 7 translators x both unsupported-instruction policies under catch_unwind; harness-written IL well-formedness checker and guard-determinism evaluator judge every result; dead/hung workers are attributed to the in-flight input; a thread that never lifted anything must give the same answer as the worker thread (no dependence on earlier lifts); thorough adds a plain-release leg and a valgrind memcheck leg over the same workload (the disassemblers are C code behind FFI)",
+    "technique": "totality + well-formedness monitor: hostile byte strings lifted by all 7 translators x both unsupported-instruction policies under catch_unwind; harness-written IL well-formedness checker and guard-determinism evaluator judge every result; dead/hung workers are attributed to the in-flight input; a thread that never lifted anything must give the same answer as the worker thread (no dependence on earlier lifts); thorough adds a plain-release leg, a valgrind memcheck leg and an AddressSanitizer leg (Rust code built with -Zsanitizer=address on nightly, capstone and bad64 compiled by clang -fsanitize=address) over the same workload (the disassemblers are C code behind FFI)",
     "rule": "uniform random bytes (x86: 1-15 bytes, prefixed/two-byte opcodes, 8-48 byte streams; fixed-width ISAs: 1-3 words incl. lengths not a "
             "multiple of 4), class templates of the C02/C03 generators with a random bit flipped, at addresses 0, page-straddling, around 2^32 and near "
             "(but not wrapping) 2^64; thorough adds a stratified sweep of every value of the top 16 bits x 4 random low halves for the 5 fixed-width "
